@@ -1135,6 +1135,12 @@ func doCheck(prop, tier string) int {
 	if err := os.WriteFile(filepath.Join(verifDir, "evidence", prop+".json"), eb, 0o644); err != nil {
 		die2("write evidence: %v", err)
 	}
+	if tier == "thorough" && os.Getenv("VERIF_REPO") == "" {
+		// the last thorough run's record is also kept aside: evidence/<id>.json is
+		// rewritten by every run, including the quick ones
+		os.MkdirAll(filepath.Join(verifDir, "evidence", "thorough"), 0o755)
+		os.WriteFile(filepath.Join(verifDir, "evidence", "thorough", prop+".json"), eb, 0o644)
+	}
 
 	// verdict
 	unknownViol := 0
